@@ -74,7 +74,21 @@ pub fn text(r: &mut Rng, big: bool) -> Vec<u8> {
 
 pub fn binary(r: &mut Rng, big: bool) -> Vec<u8> {
     let n = field_len(r, big);
-    r.bytes(n)
+    let mut v = r.bytes(n);
+    if n >= 2 && r.chance(1, 6) {
+        // binary data whose edge looks like the start of a packet: a decoder that loses a byte of
+        // framing then finds a plausible header instead of garbage
+        const LOOKALIKES: [&[u8]; 8] = [b"\xc0\x00", b"\xd0\x00", b"\xe0\x00", b"\x30\x00", b"\x20\x02\x00\x00", b"\x40\x02\x00\x01", b"\x10\x0c\x00\x04MQTT", b"\x82\x05\x00\x01\x00"];
+        let t = *r.pick(&LOOKALIKES);
+        if t.len() <= n {
+            if r.bool() {
+                v[n - t.len()..].copy_from_slice(t);
+            } else {
+                v[..t.len()].copy_from_slice(t);
+            }
+        }
+    }
+    v
 }
 
 /// A valid topic name (may be empty: the codec's domain allows it).
@@ -253,6 +267,16 @@ pub fn props(r: &mut Rng, ctx: u8, big: bool) -> Props {
         }
     };
     let mut p = props_with_mask(r, ctx, mask, nuser, big);
+    if nuser >= 1 && r.chance(1, 5) {
+        // repeated user properties: the same key twice (values equal or not), adjacent or not
+        let ups: Vec<usize> = p.iter().enumerate().filter(|(_, (id, _))| *id == USER_PROPERTY).map(|(i, _)| i).collect();
+        let src = p[*r.pick(&ups)].clone();
+        let dup = match (&src.1, r.bool()) {
+            (PV::Pair(k, _), true) => (USER_PROPERTY, PV::Pair(k.clone(), text(r, false))),
+            _ => src,
+        };
+        p.push(dup);
+    }
     // order is free on the wire: shuffle, the codec re-orders
     if r.bool() {
         r.shuffle(&mut p);
@@ -373,6 +397,17 @@ pub fn gen_rp(r: &mut Rng, fam: Fam, typ: u8, big: bool) -> RP {
                     (f, o)
                 })
                 .collect();
+            let mut topics: Vec<(Vec<u8>, u8)> = topics;
+            if r.chance(1, 6) {
+                // the same filter subscribed twice (adjacent or not), same or different options
+                let k = r.below(topics.len() as u64) as usize;
+                let mut dup = topics[k].clone();
+                if r.bool() {
+                    dup.1 = if v5 { (r.below(3) as u8) | ((r.below(3) as u8) << 4) } else { r.below(3) as u8 };
+                }
+                let at = r.range(0, topics.len());
+                topics.insert(at, dup);
+            }
             RP::Subscribe { pid: pid(r), props: pr(r, 8), topics }
         }
         9 => {
@@ -382,7 +417,13 @@ pub fn gen_rp(r: &mut Rng, fam: Fam, typ: u8, big: bool) -> RP {
         }
         10 => {
             let n = if big { list_count(r, 1, 40) } else { r.range(1, 4) };
-            let topics = (0..n).map(|i| topic_filter(r, big && i == 0)).collect();
+            let mut topics: Vec<Vec<u8>> = (0..n).map(|i| topic_filter(r, big && i == 0)).collect();
+            if r.chance(1, 6) {
+                let k = r.below(topics.len() as u64) as usize;
+                let dup = topics[k].clone();
+                let at = r.range(0, topics.len());
+                topics.insert(at, dup);
+            }
             RP::Unsubscribe { pid: pid(r), props: pr(r, 10), topics }
         }
         11 => {
